@@ -226,34 +226,104 @@ theorem instOk_fresh (net : Net) (deps : List Dep) : InstOk net deps (Warn.fresh
   intro bit n st h
   simp [Warn.freshInst, Cache.get] at h
 
+theorem instOk_setW (net : Net) (deps : List Dep) (i : Warn.Inst) (bit : Nat) (c' : Cache)
+    (cs' : ChainSt) (h : InstOk net deps i) (hc : CacheOkW net deps bit c') (hi : Inv net deps cs') :
+    InstOk net deps (Warn.setW i bit c' cs') := by
+  refine ⟨hi, ?_⟩
+  intro b
+  simp only [Warn.setW]
+  by_cases hb : b = bit
+  · simp only [hb, if_true]; exact hc
+  · simp only [hb, if_false]; exact h.2 b
+
+theorem warnLoop_ok (net : Net) (deps : List Dep) (np : Node) (hW : 2 ≤ net.window)
+    (hm : mtpMono np = true) :
+    ∀ (bits : List Nat) (i : Warn.Inst), InstOk net deps i →
+      ∃ i', Warn.warnLoop net np bits i =
+          (i', some (bits.any (fun bit => Warn.state net deps bit np == .active))) ∧
+        InstOk net deps i' ∧ i'.warned = i.warned
+  | [], i, h => ⟨i, by simp [Warn.warnLoop], h, rfl⟩
+  | bit :: bits, i, h => by
+    obtain ⟨c', cs', hts, hc', hi'⟩ :=
+      thresholdState_ok net deps bit (i.wcs bit) i.cs np hW hm (h.2 bit) h.1
+    obtain ⟨i2, hl, hok, hw⟩ := warnLoop_ok net deps np hW hm bits (Warn.setW i bit c' cs')
+      (instOk_setW net deps i bit c' cs' h hc' hi')
+    refine ⟨i2, ?_, hok, by rw [hw]; rfl⟩
+    simp only [Warn.warnLoop, hts, hl, List.any_cons, Bool.or_comm]
+
+theorem mtpMono_tail' (n : Node) (h : mtpMono n = true) : mtpMono n.tail = true := by
+  cases n with
+  | nil => rfl
+  | cons x t => exact mtpMono_tail x t h
+
+theorem warnAll_ok (net : Net) (deps : List Dep) (i : Warn.Inst) (n : Node) (hwf : Wf net n)
+    (h : InstOk net deps i) :
+    (Warn.warnAll net i n).2 = .flag (i.warned || Warn.anyActive net deps n.tail) ∧
+    (Warn.warnAll net i n).1.warned = (i.warned || Warn.anyActive net deps n.tail) ∧
+    InstOk net deps (Warn.warnAll net i n).1 := by
+  obtain ⟨i', hl, hok, hw⟩ := warnLoop_ok net deps n.tail hwf.1 (mtpMono_tail' n hwf.2) Warn.warnBits i h
+  simp only [Warn.warnAll, hl, hw, Warn.anyActive, true_and]
+  exact ⟨hok.1, hok.2⟩
+
+theorem initCaches_ok (net : Net) (deps : List Dep) (i : Warn.Inst) (n : Node) (cur : Bool)
+    (hwf : Wf net n) (h : InstOk net deps i) :
+    (Warn.initCaches net i n cur).2 = (Warn.specStep net deps i.warned (.init n cur)).2 ∧
+    (Warn.initCaches net i n cur).1.warned = (Warn.specStep net deps i.warned (.init n cur)).1 ∧
+    InstOk net deps (Warn.initCaches net i n cur).1 := by
+  have hmt := mtpMono_tail' n hwf.2
+  obtain ⟨i1, hl, hok, hw⟩ := warnLoop_ok net deps n.tail hwf.1 hmt Warn.warnBits i h
+  have hc := calcNext_ok net n.tail ⟨hwf.1, hmt⟩ i1.cs VB_TOP_BITS hok.1.1
+  simp only [Warn.initCaches, hl]
+  revert hc
+  cases calcNextBlockVersion net i1.cs n.tail VB_TOP_BITS with
+  | mk cs2 r =>
+    intro hc
+    simp only at hc
+    rw [hc.1]
+    have hok2 : InstOk net deps { i1 with cs := cs2 } :=
+      ⟨⟨hc.2.1, by rw [hc.2.2]; exact hok.1.2⟩, hok.2⟩
+    cases cur with
+    | true =>
+      have := warnAll_ok net deps { i1 with cs := cs2 } n hwf hok2
+      simp only [if_true, Warn.specStep]
+      rw [← hw]
+      exact this
+    | false =>
+      simp only [Warn.specStep, hw, Bool.false_eq_true, if_false]
+      exact ⟨trivial, trivial, hok2⟩
+
 theorem runQ_ok (net : Net) (deps : List Dep) (i : Warn.Inst) (q : Warn.Q) (hwf : Wf net q.node)
     (h : InstOk net deps i) :
-    (Warn.runQ net i q).2 = Warn.specAnswer net deps q ∧ InstOk net deps (Warn.runQ net i q).1 := by
+    (Warn.runQ net i q).2 = (Warn.specStep net deps i.warned q).2 ∧
+    (Warn.runQ net i q).1.warned = (Warn.specStep net deps i.warned q).1 ∧
+    InstOk net deps (Warn.runQ net i q).1 := by
   cases q with
   | dep q =>
     have := runQuery_ok net i.cs q hwf h.1.1
-    simp only [Warn.runQ, Warn.specAnswer]
-    refine ⟨by rw [this.1, h.1.2], ⟨this.2.1, by rw [this.2.2]; exact h.1.2⟩, h.2⟩
+    simp only [Warn.runQ, Warn.specStep]
+    refine ⟨by rw [this.1, h.1.2], trivial, ⟨this.2.1, by rw [this.2.2]; exact h.1.2⟩, h.2⟩
   | warn bit n =>
     obtain ⟨c', cs', hts, hc', hi'⟩ :=
       thresholdState_ok net deps bit (i.wcs bit) i.cs n hwf.1 hwf.2 (h.2 bit) h.1
-    simp only [Warn.runQ, hts, Warn.specAnswer, ansOf, true_and]
-    refine ⟨hi', ?_⟩
-    intro b
-    by_cases hb : b = bit
-    · simp only [hb, if_true]; exact hc'
-    · simp only [hb, if_false]; exact h.2 b
+    simp only [Warn.runQ, hts, Warn.specStep, ansOf, true_and]
+    exact ⟨rfl, instOk_setW net deps i bit c' cs' h hc' hi'⟩
+  | warnAll n =>
+    have := warnAll_ok net deps i n hwf h
+    simp only [Warn.runQ, Warn.specStep]
+    exact this
+  | init n cur => exact initCaches_ok net deps i n cur hwf h
 
 theorem runQs_ok (net : Net) (deps : List Dep) :
     ∀ (qs : List Warn.Q) (i : Warn.Inst), (∀ q ∈ qs, Wf net q.node) → InstOk net deps i →
-      (Warn.runQs net i qs).2 = qs.map (Warn.specAnswer net deps) ∧
+      (Warn.runQs net i qs).2 = Warn.specRun net deps i.warned qs ∧
       InstOk net deps (Warn.runQs net i qs).1
-  | [], i, _, h => by simp [Warn.runQs, h]
+  | [], i, _, h => by simp [Warn.runQs, Warn.specRun, h]
   | q :: qs, i, hq, h => by
     have h1 := runQ_ok net deps i q (hq q (by simp)) h
     have ih := runQs_ok net deps qs (Warn.runQ net i q).1
-      (fun x hx => hq x (List.mem_cons_of_mem _ hx)) h1.2
-    simp only [Warn.runQs, List.map_cons]
+      (fun x hx => hq x (List.mem_cons_of_mem _ hx)) h1.2.2
+    simp only [Warn.runQs, Warn.specRun]
+    rw [h1.2.1] at ih
     exact ⟨by rw [ih.1, h1.1], ih.2⟩
 
 end BV.C14.WarnLemmas
